@@ -613,3 +613,79 @@ Section Round06b.
       destruct (tagged_correct_retire ss ob Hb Hok Hob HP) as (i & rms & ups & vals & Hin & Hr). exists i. split; [eauto|exact Hr].
   Qed.
 End Round06b.
+
+(* ================= C14 end to end over several rounds: convergence to the target in the bounded number of rounds ================= *)
+Section Convergence.
+  Context (h : Z -> chandef -> list Z) (check : list Z -> option (gmap Z Z)) (codec_ok : chandef -> bool) (cf : cfg).
+
+  (* one round as it happens: the previous outcome bytes every node holds (and what they decode to), the senders, the
+     outcome committed *)
+  Record wround := { wr_seq : Z; wr_prev_bytes : list Z; wr_prev : outcome; wr_ss : list lsender; wr_next : outcome }.
+  Definition wr_tagged (r : wround) := tagged check codec_ok cf (wr_seq r) (wr_prev_bytes r) (wr_ss r).
+  Definition wr_acc (r : wround) : list (observation * bool) := accept_tagged false (wr_tagged r).
+
+  Definition wround_ok (target : gmap Z chandef) (r : wround) : Prop :=
+    bok (wr_prev_bytes r) /\ lsenders_ok codec_ok cf (wr_seq r) (wr_prev_bytes r) (wr_ss r) /\ 1 < wr_seq r /\
+    decode_outcome (c_pver cf) (wr_prev_bytes r) = Ok (wr_prev r) /\ o_stage (wr_prev r) = Production /\
+    (forall i rms ups vals, In (LCorrect i rms ups vals) (wr_ss r) -> oi_expected i = target) /\
+    (length (List.filter (fun p : option observation * bool => negb (snd p)) (wr_tagged r)) <= c_f cf)%nat /\
+    (c_f cf < length (List.filter (fun p : observation * bool => snd p) (wr_acc r)))%nat /\
+    outcome_step h cf (wr_seq r) (wr_prev r) (map fst (wr_tagged r)) = Ok (wr_next r) /\ o_stage (wr_next r) <> Retired.
+  Fixpoint wlinked (rs : list wround) : Prop :=
+    match rs with
+    | r1 :: ((r2 :: _) as rest) => wr_next r1 = wr_prev r2 /\ wlinked rest
+    | _ => True
+    end.
+
+  Lemma wround_round_ok target r : verify_defs codec_ok target = true -> wround_ok target r ->
+    round_ok (c_f cf) (rm_votes (o_defs (wr_prev r)) target) (up_votes (o_defs (wr_prev r)) target) (wr_acc r) /\
+    o_defs (wr_next r) = new_defs h (c_f cf) false (o_defs (wr_prev r)) (map fst (wr_acc r)).
+  Proof.
+    intros Hv (Hb & Hok & Hseq & Hd & Hst & Htgt & Hf & Hh & Hstep & Hnr). split.
+    - split; [|split].
+      + apply Forall_forall. intros [ob t] Hin Ht. cbn [fst snd] in *. subst t.
+        apply (tagged_correct_honest_ob check codec_ok cf (wr_seq r) (wr_prev_bytes r) (wr_ss r) (wr_prev r) target ob Hb Hok Hd Hst Hv Htgt).
+        exact (accept_tagged_sub false (wr_tagged r) (ob, true) Hin).
+      + etransitivity; [apply accept_tagged_faulty|exact Hf].
+      + exact Hh.
+    - destruct (outcome_step_inv h cf (wr_seq r) (wr_prev r) _ (wr_next r) Hseq Hstep) as (rr & obs & ts & aggs & Ha & _ & _ & _ & Hc).
+      destruct (codec_commit_fields _ _ _ Hc) as (Hstage & _ & Hdefs & _ & _).
+      unfold accept_observations in Ha. apply accept_tagged_spec in Ha. simpl in Ha. subst obs.
+      cbn [o_defs o_stage raw_outcome] in Hdefs, Hstage. rewrite Hdefs. unfold wr_acc.
+      match goal with |- new_defs h _ ?b _ _ = _ => replace b with false; [reflexivity|] end.
+      symmetry. apply bool_decide_eq_false_2. rewrite <- Hstage. exact Hnr.
+  Qed.
+
+  Lemma last_cons_default {A} (l : list A) : forall a d, last (a :: l) d = last l a.
+  Proof. induction l as [|b l IH]; intros a d; [reflexivity|]. change (last (a :: b :: l) d) with (last (b :: l) d). rewrite !IH. reflexivity. Qed.
+
+  Lemma wrounds_run target : verify_defs codec_ok target = true -> forall rs r0,
+    Forall (wround_ok target) (r0 :: rs) -> wlinked (r0 :: rs) ->
+    rounds_ok h (c_f cf) target (map wr_acc (r0 :: rs)) (o_defs (wr_prev r0)) /\
+    o_defs (wr_next (last rs r0)) = run_rounds h (c_f cf) (map wr_acc (r0 :: rs)) (o_defs (wr_prev r0)).
+  Proof.
+    intros Hv. induction rs as [|r1 rs IH]; intros r0 Hall Hl.
+    - inversion Hall as [|? ? H0 _]; subst. destruct (wround_round_ok target r0 Hv H0) as [Hr Hd].
+      cbn [map rounds_ok run_rounds last]. split; [split; [exact Hr|exact I]|exact Hd].
+    - inversion Hall as [|? ? H0 Hrest]; subst. destruct (wround_round_ok target r0 Hv H0) as [Hr Hd].
+      destruct Hl as [Hlink Hl']. destruct (IH r1 Hrest Hl') as [Hok' Hrun'].
+      change (map wr_acc (r0 :: r1 :: rs)) with (wr_acc r0 :: map wr_acc (r1 :: rs)).
+      cbn [rounds_ok run_rounds]. rewrite <- Hd, Hlink. split; [split; [exact Hr|exact Hok']|].
+      rewrite last_cons_default. exact Hrun'.
+  Qed.
+
+  (* from the first round on all correct nodes hold the same valid target; at most f faulty senders per round; then after
+     at least rounds_bound = ceil(max(#to-remove, #to-add-or-replace) / 5) rounds the outcome's channel set IS the target *)
+  Theorem llo_convergence target rs r0 :
+    verify_defs codec_ok target = true -> Forall (wround_ok target) (r0 :: rs) -> wlinked (r0 :: rs) ->
+    (size (dom (o_defs (wr_prev r0)) ∪ dom target) <= chan_cap)%nat ->
+    (rounds_bound (o_defs (wr_prev r0)) target <= length (r0 :: rs))%nat ->
+    o_defs (wr_next (last rs r0)) = target.
+  Proof.
+    intros Hv Hall Hl Hcap Hn. destruct (wrounds_run target Hv rs r0 Hall Hl) as [Hok Hrun]. rewrite Hrun.
+    assert (Hlim : rm_limit = vote_limit /\ (0 < vote_limit)%nat) by (vm_compute; split; [reflexivity|lia]).
+    destruct (rounds_bound_enough (o_defs (wr_prev r0)) target (length (map wr_acc (r0 :: rs))) (proj1 Hlim) (proj2 Hlim)) as [Hr Hu];
+      [rewrite map_length; exact Hn|].
+    exact (convergence h (c_f cf) target (map wr_acc (r0 :: rs)) (o_defs (wr_prev r0)) Hok Hcap Hr Hu).
+  Qed.
+End Convergence.
